@@ -1,6 +1,7 @@
 package rules
 
 import (
+	"go/token"
 	"fmt"
 	"go/types"
 	"math"
@@ -162,16 +163,57 @@ func C12(p *an.Prog, r *an.Report) {
 		for _, ret := range an.NewFlow(p).OkReturns(fn) {
 			n++
 			v := ret.Results[0]
-			call, ok := v.(*ssa.Call)
-			callee := (*ssa.Function)(nil)
-			if ok {
-				callee = call.Call.StaticCallee()
+			// every value on the way back from the result to the receiver's bytes is unsigned: a
+			// signed integer anywhere on that trail (a conversion, Int()/IntSafe()) loses values >= 2^63
+			seen := map[ssa.Value]bool{}
+			var walk func(x ssa.Value, d int)
+			walk = func(x ssa.Value, d int) {
+				if x == nil || seen[x] || d > 40 {
+					return
+				}
+				seen[x] = true
+				if bt, ok := x.Type().Underlying().(*types.Basic); ok && bt.Info()&types.IsInteger != 0 && bt.Info()&types.IsUnsigned == 0 {
+					if _, isConst := x.(*ssa.Const); !isConst {
+						bad = append(bad, fmt.Sprintf("success return at %s: the value passes through the signed %s %s", p.Pos(ret.Pos()), bt.Name(), x.Name()))
+						return
+					}
+				}
+				switch y := x.(type) {
+				case *ssa.Convert:
+					walk(y.X, d+1)
+				case *ssa.ChangeType:
+					walk(y.X, d+1)
+				case *ssa.BinOp:
+					walk(y.X, d+1)
+					if y.Op != token.SHL && y.Op != token.SHR {
+						walk(y.Y, d+1)
+					}
+				case *ssa.Phi:
+					for _, e := range y.Edges {
+						walk(e, d+1)
+					}
+				case *ssa.Extract:
+					walk(y.Tuple, d+1)
+				case *ssa.Call:
+					callee := y.Call.StaticCallee()
+					if callee != nil && an.InLib(callee) && len(callee.Blocks) > 0 {
+						for _, r2 := range an.Returns(callee) {
+							for _, rv := range r2.Results {
+								if bt, ok := rv.Type().Underlying().(*types.Basic); ok && bt.Info()&types.IsInteger != 0 {
+									walk(rv, d+1)
+								}
+							}
+						}
+					}
+					// binary.BigEndian.UintN and other external decoders: unsigned by their result type
+				}
 			}
-			if callee == nil || an.FnPkgPath(callee) != "encoding/binary" || callee.Name() != "Uint64" {
-				bad = append(bad, fmt.Sprintf("success return at %s yields %s, not binary.BigEndian.Uint64(...)", p.Pos(ret.Pos()), v))
+			walk(v, 0)
+			if bt, ok := v.Type().Underlying().(*types.Basic); !ok || bt.Kind() != types.Uint64 {
+				bad = append(bad, fmt.Sprintf("success return at %s is not a uint64", p.Pos(ret.Pos())))
 			}
 		}
-		r.Check(len(bad) == 0 && n > 0, "C12.P4", "data.(Integer).UintSafe/value", p.FnPos(fn), "unsigned accessor returns BigEndian.Uint64 of the padded bytes without a signed detour", bad...)
+		r.Check(len(bad) == 0 && n > 0, "C12.P4", "data.(Integer).UintSafe/value", p.FnPos(fn), "unsigned accessor computes its uint64 without a signed detour (no signed integer on the way from the bytes to the result)", bad...)
 	} else {
 		r.Fail("C12.P4: anchor data.(Integer).UintSafe not found")
 	}
